@@ -94,4 +94,80 @@ example : SeqNoOverflow (minI64 + 6) (minI64 + 2) (idealStep (-2)) ∧
       [minI64 + 6, minI64 + 4, minI64 + 2] := by
   decide
 
+/-! ## Expansion of a split word: no panic, count, limit -/
+
+/-- `bracesSeqRec` never panics (index out of range on `br.Elems[1]`, `fromLit[0]`) on what
+    `SplitBraces` produces — for every byte string, overflow or not. -/
+theorem expand_no_panic (w : Bytes) : expand (splitBraces w).1 ≠ .error .panic := by
+  obtain ⟨r, hr⟩ := bracesRec_total (bracesIn (splitBraces w).1 + 1) (limit + 1) (splitBraces w).1
+    (wf_split w) (by omega)
+  unfold expand bracesSeq
+  rw [hr]
+  by_cases hl : r.length > limit <;> simp [hl]
+
+/-- Number of results = product over the concatenated parts of the sum over the alternatives
+    (`count`), a sequence counting `⌊|to−from|/step⌋+1`. -/
+theorem count_denot (t : Word) : (denot t).length = count t := denot_length t
+
+/-- The expansion of a well-formed tree whose sequences do not overflow is its denotation
+    (alternatives in order, sequences as ideal progressions, left-major products), or the limit
+    error exactly when there are more than 16384 results. -/
+theorem expand_spec (t : Word) (hwf : wf t = true) (hno : noOv t = true) :
+    expand t = if count t > limit then .error .limit else .ok (denot t) := by
+  obtain ⟨r, hr, hrr⟩ := bracesRec_spec (bracesIn t + 1) (limit + 1) t hwf hno (by omega) (by omega)
+  have hlen : r.length = min (limit + 1) (count t) := by
+    have := congrArg List.length hrr
+    simpa [List.length_take, denot_length] using this
+  unfold expand bracesSeq
+  rw [hr]
+  simp only
+  by_cases hc : count t > limit
+  · have : r.length > limit := by omega
+    simp [hc, this]
+  · have : ¬ r.length > limit := by omega
+    simp only [hc, this, if_false, hrr]
+    congr 1
+    apply List.take_of_length_le
+    rw [denot_length]; omega
+
+/-- `count`: when the expansion succeeds it has exactly `count` elements. -/
+theorem count_results (w : Bytes) (hno : noOv (splitBraces w).1 = true) (rs : List Bytes)
+    (h : expand (splitBraces w).1 = .ok rs) : rs.length = count (splitBraces w).1 := by
+  rw [expand_spec _ (wf_split w) hno] at h
+  split at h
+  · cases h
+  · cases h; exact denot_length _
+
+/-- The documented limit: an error **iff** the list would exceed 16384 elements. -/
+def limit_iff_statement : Prop :=
+  ∀ w : Bytes, isLimitErr (expand (splitBraces w).1) = true ↔ count (splitBraces w).1 > limit
+
+/-- It holds for every word none of whose sequences overflows Int64 in the Go loop. -/
+theorem limit_iff_partial (w : Bytes) (hno : noOv (splitBraces w).1 = true) :
+    isLimitErr (expand (splitBraces w).1) = true ↔ count (splitBraces w).1 > limit := by
+  rw [expand_spec _ (wf_split w) hno]
+  split <;> simp_all [isLimitErr]
+
+/-- `{9223372036854775806..9223372036854775807}` has 2 elements but ends in the limit error
+    (finding C16-seq-int64-overflow). -/
+def overflowWitness : Bytes :=
+  [123, 57, 50, 50, 51, 51, 55, 50, 48, 51, 54, 56, 53, 52, 55, 55, 53, 56, 48, 54, 46, 46,
+   57, 50, 50, 51, 51, 55, 50, 48, 51, 54, 56, 53, 52, 55, 55, 53, 56, 48, 55, 125]
+
+theorem limit_iff_counterexample : ¬ limit_iff_statement := by
+  intro h
+  have hcount : ¬ count (splitBraces overflowWitness).1 > limit := by decide
+  apply hcount
+  apply (h overflowWitness).mp
+  have htree : (splitBraces overflowWitness).1 =
+      [.brace true [[.lit (overflowWitness.drop 1 |>.take 19)], [.lit (overflowWitness.drop 22 |>.take 19)]],
+       .lit []] := by rfl
+  rw [htree]
+  apply expand_single_seq_limit _ _ (mkSeq 9223372036854775806 9223372036854775807 1) (by rfl)
+  -- two values, then the wrapped −2^63 and the 16383 values after it
+  have e1 : limit + 1 = (limit - 2 + 1) + 1 + 1 := by decide
+  rw [e1, seqVals_succ, if_pos (by decide), seqVals_succ, if_pos (by decide)]
+  simp only [List.length_cons]
+  rw [seqVals_length_up1 _ (by decide) (by decide) (by decide) _ _ (by decide) (by decide)]
+
 end ShVerif.C16
